@@ -690,10 +690,18 @@ package hclwrite
 //@ loop 2 invariant fresh(ret) && len(ret) == len(tokBuf) && rangeindex + 1 <= len(ret) && (forall j int :: { ret[j] } 0 <= j && j <= rangeindex ==> ret[j] != nil && fresh(ret[j]) && ret[j].Type == nativeTokens[j].Type && len(ret[j].Bytes) == len(nativeTokens[j].Bytes) && ret[j].SpacesBefore == nativeTokens[j].Range.Start.Byte - ite(j == 0, 0, nativeTokens[j - 1].Range.End.Byte))
 // (WriteTo writes to an arbitrary io.Writer: its body is not verified; the clause below defines the
 // ghost flag and assumes WriteTo does not modify the tokens it writes)
+// (round 7) The body is now verified for what it hands to the writer: every Write is either a
+// token's own bytes or a run of space characters no longer than the spacing still owed to the token
+// (call-site assertion; the space buffer is all spaces and is never modified) - so spacing is only
+// ever written as spaces. The definition of the ghost flag stays assumed.
 // verif:func (Tokens).WriteTo
-//@ trusted
-//@ assigns writtenFaithful
-//@ ensures writtenFaithful == (forall j int :: { ts[j] } 0 <= j && j < len(ts) ==> asLexed(ts[j]))
+//@ nosafety nil
+//@ assumesassigns writtenFaithful
+//@ assumes writtenFaithful == (forall j int :: { ts[j] } 0 <= j && j < len(ts) ==> asLexed(ts[j]))
+//@ callsite Write chunk: arg1 === token.Bytes || (len(arg1) >= 1 && len(arg1) <= spacesBefore && (forall k int :: { arg1[k] } 0 <= k && k < len(arg1) ==> arg1[k] == 32))
+//@ loop 1 invariant len(spaces) == 40 && fresh(spaces) && (forall k int :: { spaces[k] } 0 <= k && k <= rangeindex ==> spaces[k] == 32)
+//@ loop 2 invariant len(spaces) == 40 && (forall k int :: { spaces[k] } 0 <= k && k < 40 ==> spaces[k] == 32)
+//@ loop 3 invariant len(spaces) == 40 && (forall k int :: { spaces[k] } 0 <= k && k < 40 ==> spaces[k] == 32)
 // verif:func Format
 //@ nosafety
 //@ ensures faithful: writtenFaithful
